@@ -229,6 +229,12 @@ type ReqConfig struct {
 	IncludeType  string   `json:"include_type,omitempty"`
 	ExcludeType  string   `json:"exclude_type,omitempty"`
 	MustGenerate []string `json:"must_generate,omitempty"`
+	// round 4, plugin KIND: "" = a plugin binary (it receives the CodeGeneratorRequest); otherwise the name of a
+	// protoc built-in plugin (cpp, java, ...): buf hands the request to the compiler `protoc` as a descriptor set plus
+	// the list of files to generate, and what is judged is what the compiler receives. Route is how buf finds the
+	// compiler (half C only): protoc_path as a string / with extra arguments / looked up on PATH / a v1 template.
+	Builtin string `json:"protoc_builtin,omitempty"`
+	Route   string `json:"protoc_route,omitempty"`
 }
 
 func (cfg ReqConfig) filtered() bool { return cfg.IncludeType != "" || cfg.ExcludeType != "" }
@@ -246,6 +252,9 @@ func (cfg ReqConfig) String() string {
 	}
 	if cfg.ExcludeType != "" {
 		s += "+exclude_types=" + cfg.ExcludeType
+	}
+	if cfg.Builtin != "" {
+		s += "+protoc_builtin=" + cfg.Builtin + "/" + cfg.Route
 	}
 	return s
 }
@@ -363,6 +372,8 @@ type ReqStats struct {
 	UnusedEdges, PublicEdges    int // dependency edges checked whose import is unused / public
 	UnusedEdgesToNonTargetMulti int // ... unused, to a file that is not a target, in a request set with several requests
 	ImageFilesWithUnusedRecord  int // image files for which buf recorded unused dependency indexes (half A: read from the image)
+	// round 4: files with options in a descriptor set handed to the compiler (protoc built-in plugins), found complete
+	RetCompilerGenerated, RetCompilerImport int
 }
 
 func (s *ReqStats) add(o *ReqStats) {
@@ -384,6 +395,8 @@ func (s *ReqStats) add(o *ReqStats) {
 	s.PublicEdges += o.PublicEdges
 	s.UnusedEdgesToNonTargetMulti += o.UnusedEdgesToNonTargetMulti
 	s.ImageFilesWithUnusedRecord += o.ImageFilesWithUnusedRecord
+	s.RetCompilerGenerated += o.RetCompilerGenerated
+	s.RetCompilerImport += o.RetCompilerImport
 }
 
 func dirOf(p string) string {
@@ -556,7 +569,28 @@ func CheckRequests(m *ReqModel, cfg ReqConfig, reqs []*pluginpb.CodeGeneratorReq
 				}
 			}
 			// retention in proto_file
-			if idx, ok := m.Opt[name]; ok {
+			if idx, ok := m.Opt[name]; ok && cfg.Builtin != "" {
+				// round 4: what a protoc built-in plugin's COMPILER receives. protoc derives the runtime view of the files
+				// to generate itself, so "removed only from the runtime view" means that nothing is removed here: every file
+				// of the descriptor set, generated or not, still carries its source-retention and its runtime options.
+				if !cfg.filtered() {
+					s := readOptions(fd, idx)
+					what := "import"
+					if gen[name] {
+						what = "generated-file"
+					}
+					switch {
+					case !s.fileSrc || !s.msgSrc:
+						report("retention/descriptor-set-for-protoc/"+what+"-lost-source-option", fmt.Sprintf("invocation %d: the descriptor set handed to protoc has %s without a source-retention option (file:%v message:%v): the compiler is given the runtime view", qi, name, s.fileSrc, s.msgSrc))
+					case !s.fileRun || !s.msgRun:
+						report("retention/descriptor-set-for-protoc/"+what+"-lost-runtime-option", fmt.Sprintf("invocation %d: the descriptor set handed to protoc has %s without a runtime-retention option (file:%v message:%v)", qi, name, s.fileRun, s.msgRun))
+					case gen[name]:
+						st.RetCompilerGenerated++
+					default:
+						st.RetCompilerImport++
+					}
+				}
+			} else if ok {
 				s := readOptions(fd, idx)
 				if gen[name] {
 					if s.fileSrc || s.msgSrc {
@@ -575,6 +609,9 @@ func CheckRequests(m *ReqModel, cfg ReqConfig, reqs []*pluginpb.CodeGeneratorReq
 					}
 				}
 			}
+		}
+		if cfg.Builtin != "" {
+			continue // a compiler invocation has no source_file_descriptors: the descriptor set is the source view
 		}
 		// source_file_descriptors: one per file to generate, with all options
 		sfd := map[string]*descriptorpb.FileDescriptorProto{}
